@@ -29,9 +29,16 @@ RULE = ("Hypothesis draws d in {2,3,50,300,1000(,3000)} or 2..40, cycled mode-si
         "another pool object, an equal-valued copy, a rescaled copy, one new object at two places; inside a run, at its start, at the "
         "ends), the chain shifted by one position, or all-distinct objects; mul_scalar / norm / accuracy in both argument orders and "
         "orthogonalize / truncate, with and without use_stab, each against the reference and against the same call on deep copies. "
-        "Sub-check one_core: ONE core (first / last / second / last but one / middle / drawn) multiplied by 2^s, |s| in 512..990 (down to -900), "
-        "every other core ordinary, rank profiles generic / 1,1,r,..,r,1,1 / rank-1 bond at one end / all 1: orthogonalize (every pivot) and "
-        "truncate with use_stab against the reference and against the same call with that core at an ordinary scale. "
+        "Sub-check one_core: ONE core (first / last / second / last but one / middle / drawn) multiplied by 2^s, |s| in 512..1000, "
+        "every other core anywhere in the bulk window (the neighbour of an end core included: no bound on the sum of two neighbouring "
+        "scales), rank profiles generic / 1,1,r,..,r,1,1 / rank-1 bond at one end / all 1: orthogonalize (pivot first / last / middle / "
+        "drawn) and truncate with use_stab against the reference and against the same call with that core at an ordinary scale. "
+        "Sub-check extreme_pairs: TWO OR MORE cores multiplied by 2^s, 512 <= |s| <= 1000 each (all positive / all negative / alternating / "
+        "drawn signs, equal or different magnitudes): the pair a sweep starts from (cores 0,1 / d-2,d-1), both end pairs, the pair around "
+        "the pivot ((k-1,k), (k,k+1), (k-1,k+1)), both end cores, three neighbours, two drawn positions, a run of eight cores (all cores for "
+        "d <= 8); every other core ordinary (any total, or all of size O(1)); a sixteenth with an exactly zero core; orthogonalize "
+        "(use_stab) for EVERY pivot when d <= 4, else pivot first / last / middle / drawn / at one of the extreme cores, and truncate "
+        "(use_stab), each against the unbounded-exponent reference and against the same call with those cores at an ordinary scale. "
         "Sub-check extreme_cores: mul_scalar (both argument orders) / norm (both tensors) / accuracy (both orders) with ONE or TWO cores "
         "multiplied exactly by 2^s, 512 <= |s| <= 1000, every other core ordinary (any total, or all of size O(1)): one core of Y1 / of Y2, "
         "the same factor in both operands (same / different position), two cores of one operand, one core in each operand (same / other "
@@ -52,11 +59,14 @@ TOLERANCES = ("scalar product: |v 2^p / ref - 1| <= 8 eps sum_k (r1 s1 + n + 2) 
               "shared objects versus deep copies and the two argument orders: bit-identical, else within 3x the rounding bound of the reference "
               "(asserted when that bound is <= 0.1; BLAS kernels may depend on the alignment of a buffer), tensors: relative distance^2 "
               "from three reference Gram values <= 2x its own rounding bound; an exactly zero Gram term enters the reference of accuracy as 0 "
-              "with no exponent; one_core: p shifted by s and all cores bit-identical when the core is not the start of a sweep (it enters only "
-              "through R @ G / G @ R and core_stab: exact scalings), the tensor is not over-ranked, the Gram bound is <= 1e-3 and the pivot "
-              "maximum is not within 1e-12 of a power of two, else equal tensors within 2x the rounding bound of three reference Gram values; "
-              "truncate: distance^2 to 2^s times the rounding of the ordinary tensor <= (2e(1+1e-3)/(1-e))^2 + 64 (d-1) R eps + rounding, "
-              "and equal within rounding when the ranks agree and the orthogonalised cores are bit-identical by the rule above; "
+              "with no exponent; one_core / extreme_pairs: p shifted by the sum of the shifts and ALL cores bit-identical, whatever the pivot, "
+              "the position of the scaled cores (also the cores a sweep starts from), the ranks (also over-ranked) and the conditioning - "
+              "every core is split by core_stab before the sweeps, an exact scaling - asserted whenever the scaling of the input was exact "
+              "(no entry of a scaled core subnormal, checked on the data) and no scaled core has its maximum within 1e-11 of a power of two "
+              "(floor(log2(m 2^s)) may differ from floor(log2 m) + s there: then equal tensors within 2x the rounding bound of three "
+              "reference Gram values); truncate: distance^2 to 2^s times the rounding of the ordinary tensor <= (2e(1+1e-3)/(1-e))^2 + "
+              "64 (d-1) R eps + rounding, and under the same two conditions the SAME ranks (orthogonalised cores and threshold are "
+              "bit-identical) and equal tensors within rounding (only the factors 2^(p/d) spread over the cores differ); "
               "extreme_cores: value bounds as for scalar / norm / accuracy (the rounding bound does not depend on the scales); shift relation: "
               "mul_scalar exponent = that of the ordinary pair + the sum of all shifts, norm exponent + the sum of the shifts of that tensor, "
               "mantissa bit-identical (same denoted value if a mantissa is within 8 eps of 1 or below 1: floor(log2) at a power of two), "
@@ -73,9 +83,13 @@ ASSUMPTIONS = ["d >= 2",
                "scales s_k in [-480, 480] (`opposed` operands: entries up to 2^+-900 with pair sums in [-960, 960]) - there the "
                "overflow / underflow comes from the product over many cores; single cores and pairs of cores with |s| in 512..1000 at any "
                "position of either operand are the sub-check extreme_cores",
-               "orthogonalize / truncate: per-core scales in [-480, 480] except the one core of sub-check one_core; the core a sweep starts "
-               "from is factorised as the caller gave it and R of it times its neighbour is formed before any rescaling, so the end "
-               "pairs (0, 1) and (d-2, d-1) have |s_a + s_b| <= 980 and s >= -900 (products with the core stay normal numbers)",
+               "generator choice, not a domain restriction of orthogonalize / truncate (since repo 782a2c5 every core is rescaled by "
+               "core_stab before the sweeps; before that R of the raw starting core times its neighbour was formed unscaled and two "
+               "neighbouring cores at 2^+-600 overflowed / gave a zero tensor): the bulk families orthogonalize / truncate / shared / tiny "
+               "keep per-core scales in [-480, 480]; single cores with |s| in 512..1000 at any position next to neighbours of any bulk "
+               "scale are sub-check one_core, two and more such cores (adjacent pairs at the start of a sweep and around the pivot "
+               "included, same or opposite signs) are sub-check extreme_pairs; the sum of the bulk total and of the extreme shifts stays "
+               "within +-30000",
                "bulk values of modulus < 2^-20 are replaced by 2^-20 in the U(-1,1) family (no subnormal products at the edge of the window)",
                "tilted operands: w is clipped per core so that every entry stays above 2^-1000 (w (n-1) <= 976 + min(s1_k, s2_k)); the "
                "rescaling relation of one core is asserted only if no entry of the rescaled core became subnormal (checked on the data)",
@@ -1172,17 +1186,21 @@ def prop_shared(case, ctx):
     del keep
 
 
-# ------------------------------------------------------------------------------------------- one core far outside the window
-# teneva.mul(number, Y) puts the whole factor into core 0, a boundary condition or a weight often sits in the last core: ONE core has
-# entries beyond 2^+-512 (its squares are not representable) while every other core is ordinary.  orthogonalize / truncate never square
-# an entry (LAPACK's QR / RQ use scaled norms) and rescale every core before it is factorised, except the core a sweep starts from,
-# which is factorised as the caller gave it.  The Gram routines (mul_scalar, norm, accuracy) on such tensors are the sub-check
-# extreme_cores below.
-# Oracles: all of run_orth / run_truncate on the tensor itself, and the shift relation against the same tensor with that core at an
-# ordinary scale: the exponent moves by s and nothing else (bit for bit where every operation on the core is an exact scaling).
+# ------------------------------------------------------------------------------------------- cores far outside the window
+# teneva.mul(number, Y) puts the whole factor into core 0, a boundary condition or a weight often sits in the last core, a product
+# teneva.mul(Y1, Y2) of two such tensors has it twice: ONE core (sub-check one_core) or TWO AND MORE cores (sub-check extreme_pairs),
+# neighbours in particular, have entries beyond 2^+-512 (their squares, and the product of two of them, are not representable) while
+# every other core is ordinary.  orthogonalize / truncate never square an entry (LAPACK's QR / RQ use scaled norms) and, since repo
+# commit 782a2c5, rescale EVERY core by core_stab before the sweeps (before that the core a sweep starts from was factorised as the
+# caller gave it and R of it times its neighbour was formed unscaled: OverflowError / LinAlgError for two neighbours at 2^600, a zero
+# tensor for two at 2^-600).  The Gram routines (mul_scalar, norm, accuracy) on such tensors are the sub-check extreme_cores below.
+# Oracles: all of run_orth / run_truncate on the tensor itself, and the shift relation against the same tensor with those cores at an
+# ordinary scale: the exponent moves by the sum of the shifts and nothing else, bit for bit (the scaled cores enter only through
+# core_stab, an exact scaling, whatever the pivot, the position and the ranks); truncate: same ranks, and the same tensor up to the
+# rounding of the factor 2^(p/d) that is spread over the cores.
 
-NB = 980                      # |s_end + s_next| for the two end pairs: R of the unscaled end core times the next core is representable
-EXTREME = st.one_of(st.integers(512, 990), st.integers(512, 530), st.integers(-900, -512), st.integers(-545, -512))
+EXTREME = st.one_of(st.integers(512, 1000), st.integers(512, 530), st.integers(960, 1000), st.integers(-1000, -512), st.integers(-545, -512),
+                    st.integers(-1000, -960))
 ONE_POS = ["first", "first", "first", "last", "last", "last", "second", "penult", "mid", "frac"]
 ENDS = ["generic", "ends1", "ends1", "left1", "right1", "all1"]
 
@@ -1200,17 +1218,12 @@ def one_core_cases(draw, tier):
 
 
 def one_core_pair(case):
-    """Y0 (every core ordinary), Y = Y0 with core j multiplied by 2^ext (exact), j."""
+    """Y0 (every core ordinary), Y = Y0 with core j multiplied by 2^ext (exact unless an entry becomes subnormal), j."""
     spec = case["Y"]
     d = spec["d"]
     j = {"first": 0, "last": d - 1, "second": min(1, d - 1), "penult": max(d - 2, 0), "mid": d // 2, "frac": case["jf"] % d}[case["pos"]]
     s0 = np.array(scales(d, case["sc"], LO, HI), dtype=np.int64)
     s0[j] = case["t0"]
-    sj = case["t0"] + case["ext"]
-    for a, b in ((0, 1), (d - 1, d - 2)):                           # end core a, its neighbour b: the sweep from a forms R_a @ G_b unscaled
-        if j in (a, b):
-            o = b if j == a else a
-            s0[o] = max(LO, -NB - sj, min(HI, NB - sj, int(s0[o])))
     Y0 = build(spec, s0)
     return Y0, rescale(Y0, j, case["ext"]), j
 
@@ -1219,57 +1232,200 @@ def bitwise_same(Z, W):
     return len(Z) == len(W) and all(A.shape == B.shape and A.tobytes() == B.tobytes() for A, B in zip(Z, W))
 
 
+def near_pow2(G):
+    """max|G| within 1e-11 (relative) of a power of two: floor(log2(max|G| 2^s)) need not be floor(log2(max|G|)) + s there."""
+    m = float(np.max(np.abs(G)))
+    if m == 0 or not math.isfinite(m):
+        return True
+    f = 2 * math.frexp(m)[0]
+    return f < 1 + 1e-11 or f > 2 - 1e-11
+
+
+def scaling_state(Y, Y0, shs):
+    """'exact': every scaled core is 2^s times the ordinary one bit for bit (no entry subnormal) and core_stab splits both the same way;
+    'near': exact scaling, but a maximum sits at a power of two; 'lossy': an entry of a scaled core became subnormal."""
+    state = "exact"
+    for A, B, s in zip(Y, Y0, shs):
+        if int(s) == 0:
+            continue
+        if not bool(np.all(np.isfinite(A))) or np.ldexp(A, -int(s)).tobytes() != B.tobytes():
+            return "lossy"
+        if near_pow2(B):
+            state = "near"
+    return state
+
+
+def orth_shift(ctx, what, Y0, k, S, state, Z, p):
+    """(Z, p) = orthogonalize of the tensor with scaled cores against the same call on the ordinary tensor Y0: p = p0 + S, cores bit-identical."""
+    Z0, p0 = ctx.lib(teneva.orthogonalize, Y0, k, True)
+    if state == "lossy":
+        ctx.label("shift:inexact_scaling")
+        return
+    if p == p0 + S and bitwise_same(Z, Z0):
+        ctx.label("shift:bitwise")
+        return
+    ctx.check(state != "exact", f"{what}: the exponent must move by the sum of the shifts and every core must stay bit-identical",
+              p=p, p_ordinary=p0, s=S, first_different_core=next((i for i, (A, B) in enumerate(zip(Z, Z0)) if A.shape != B.shape or A.tobytes() != B.tobytes()), None))
+    same_tensor(ctx, what, Z, p, Z0, p0 + S)
+    ctx.label("shift:within_bound")
+
+
+def truncate_shift(ctx, what, Y, Y0, e, S, state):
+    """run_truncate on Y, and truncate(Y) against 2^S truncate(Y0)."""
+    d = len(Y)
+    info = {}
+    Z, _ = run_truncate(ctx, Y, e, info)
+    Z0 = ctx.lib(teneva.truncate, Y0, e, use_stab=True)
+    n = oracle.shape_of(Y)
+    why = oracle.wellformed(Z0, n)
+    ctx.check(why is None, f"truncate(e={e}, use_stab=True): result not well-formed / finite: {why}")
+    if not info or oracle.wellformed(Z, n) is not None:
+        return
+    if state == "lossy":
+        ctx.label("shift:inexact_scaling")
+        return
+    rd = rel_dist2(Z0, S, Z)
+    ctx.check(rd is not None, f"{what}: the result is the zero tensor")
+    r2, t2p, _, _ = rd
+    ctx.check(r2 <= (2 * e * (1 + 1e-3) / (1 - e)) ** 2 + 64 * (d - 1) * info["R"] * EPS + 2 * t2p + 8 * info["t2"],
+              f"{what}: differs from 2^s times the rounding of the ordinary tensor by more than 2e", dist2=r2, e=e, s=S)
+    same = oracle.ranks_of(Z) == oracle.ranks_of(Z0)
+    if state == "exact":
+        # the orthogonalised cores and the threshold are bit-identical, hence the SVD sweep; only the factors 2^(p/d) differ
+        ctx.check(same, f"{what}: the ranks differ from those for the ordinary tensor", ranks=oracle.ranks_of(Z)[:12], ranks_ordinary=oracle.ranks_of(Z0)[:12], s=S)
+    if same:
+        ctx.label("same_ranks")
+        same_tensor(ctx, what, Z, 0, Z0, S)
+
+
 def prop_one_core(case, ctx):
     Y0, Y, j = one_core_pair(case)
     spec, sh, op = case["Y"], case["ext"], case["op"]
     d = len(Y)
     r = oracle.ranks_of(Y)
     k = d - 1 if op == "truncate" else {"first": 0, "last": d - 1, "mid": d // 2, "frac": case["kf"] % d}[case["k"]]
-    raw = (j == 0 and k > 0) or (j == d - 1 and k < d - 1)          # the extreme core is factorised as it is (start of a sweep)
+    raw = (j == 0 and k > 0) or (j == d - 1 and k < d - 1)          # a sweep starts at the extreme core
+    shs = [sh if i == j else 0 for i in range(d)]
+    state = scaling_state(Y, Y0, shs)
     ctx.label("op:" + op, "core:" + ("first" if j == 0 else "last" if j == d - 1 else "interior"), "huge" if sh > 0 else "tiny",
               "ends:" + spec["ends"], f"d={d}" if d in (2, 3, 4, 50, 300, 1000, 3000) else "d=other",
-              "sweep_starts_at_the_core" if raw else "core_reached_by_the_sweep")
+              "sweep_starts_at_the_core" if raw else "core_reached_by_the_sweep", "scaling:" + state)
     if raw and r[1 if j == 0 else d - 1] == 1:
         ctx.label("rank1_bond_at_the_starting_core")
     ctx.nontrivial(True)                                            # the squares of the entries of core j are not representable
     if op == "orth":
         Z, p, gy = run_orth(ctx, Y, k)
-        Z0, p0 = ctx.lib(teneva.orthogonalize, Y0, k, True)
         if Z is None:
             return
-        what = f"orthogonalize(k={k}, use_stab=True), core {j} times 2^{sh}"
-        if p == p0 + sh and bitwise_same(Z, Z0):
-            ctx.label("shift:bitwise")
-            return
-        pms = [float(np.max(np.abs(Z[k]))), float(np.max(np.abs(Z0[k])))]
-        near = any(m < 1 + 1e-12 or m > 2 - 1e-12 for m in pms)      # floor(log2) of the pivot maximum may round either way there
-        # exact: core j only enters through R @ G_j / G_j @ R and core_stab, which scale exactly (no term below 2^-1022: ext >= -900)
-        exact = not raw and not spec["over"] and gy.tol <= GATE and not near
-        ctx.check(not exact, f"{what}: the exponent must move by s and every core must stay bit-identical", p=p, p_ordinary=p0, s=sh,
-                  pivot_max=pms)
-        same_tensor(ctx, what, Z, p, Z0, p0 + sh)
-        ctx.label("shift:within_bound")
+        orth_shift(ctx, f"orthogonalize(k={k}, use_stab=True), core {j} times 2^{sh}", Y0, k, sh, state, Z, p)
     else:
         e = case["e"]
-        info = {}
-        Z, _ = run_truncate(ctx, Y, e, info)
-        Z0 = ctx.lib(teneva.truncate, Y0, e, use_stab=True)
-        what = f"truncate(e={e}, use_stab=True), core {j} times 2^{sh}"
-        n = oracle.shape_of(Y)
-        why = oracle.wellformed(Z0, n)
-        ctx.check(why is None, f"truncate(e={e}, use_stab=True): result not well-formed / finite: {why}")
-        if not info or oracle.wellformed(Z, n) is not None:
-            return
-        rd = rel_dist2(Z0, sh, Z)
-        ctx.check(rd is not None, f"{what}: the result is the zero tensor")
-        r2, t2p, _, _ = rd
-        ctx.check(r2 <= (2 * e * (1 + 1e-3) / (1 - e)) ** 2 + 64 * (d - 1) * info["R"] * EPS + 2 * t2p + 8 * info["t2"],
-                  f"{what}: differs from 2^s times the rounding of the ordinary tensor by more than 2e", dist2=r2, e=e, s=sh)
-        if oracle.ranks_of(Z) == oracle.ranks_of(Z0):
-            ctx.label("same_ranks")
-            if j != 0 and not spec["over"] and info["gy"].tol <= GATE:
-                # the orthogonalised cores are bit-identical (see above), hence the SVD sweep; only the 2^(p/d) factors differ
-                same_tensor(ctx, what, Z, 0, Z0, sh)
+        truncate_shift(ctx, f"truncate(e={e}, use_stab=True), core {j} times 2^{sh}", Y, Y0, e, sh, state)
+
+
+# ------------------------------------------------------------------------------------------- two and more extreme cores (orthogonalize / truncate)
+# Placements: the pair a sweep starts from (cores 0, 1 for the left sweep, d-2, d-1 for the right one), both end pairs, the pair around the
+# pivot ((k-1, k), (k, k+1), (k-1, k+1)), the two end cores, three neighbours, two drawn positions, a run of up to eight cores (every core
+# for d <= 8); exponents all positive / all negative / alternating / drawn, each 512 <= |s| <= 1000; every pivot for d <= 4, else
+# first / last / middle / drawn / at one of the extreme cores.
+
+PFORMS = ["left_pair"] * 3 + ["right_pair"] * 3 + ["pivot_pair"] * 3 + ["both_pairs", "both_pairs", "ends", "run3", "scattered", "run8"]
+PSIGNS = ["pos", "pos", "neg", "neg", "alt", "alt", "drawn"]
+XMAG_ = st.one_of(st.integers(512, 1000), st.integers(512, 540), st.integers(960, 1000), st.sampled_from([512, 600, 1000]))
+
+
+@st.composite
+def extreme_pair_cases(draw, tier):
+    big = [2, 3, 3, 4, 5, 50, 300] if tier == "quick" else [2, 3, 4, 5, 50, 50, 300, 300, 1000, 3000]
+    d = draw(st.one_of(st.sampled_from(big), st.integers(2, 40)))
+    spec = draw(tensor_specs(d))
+    spec["ends"] = draw(st.sampled_from(ENDS))
+    return {"Y": spec, "sc": draw(scale_specs()), "moderate": draw(st.booleans()),
+            "form": draw(st.sampled_from(PFORMS)), "variant": draw(st.integers(0, 2)), "jf": [draw(st.integers(0, 10 ** 6)), draw(st.integers(0, 10 ** 6))],
+            "signs": draw(st.sampled_from(PSIGNS)), "flip": draw(st.booleans()), "neg": [draw(st.booleans()) for _ in range(4)],
+            "mag": [draw(XMAG_) for _ in range(4)], "equal_mag": draw(st.sampled_from([False, False, True])),
+            "t0": [draw(st.integers(-8, 8)) for _ in range(4)],
+            "op": draw(st.sampled_from(["orth", "orth", "truncate"])),
+            "k": draw(st.sampled_from(["first", "last", "last", "mid", "frac", "at_extreme"])), "kf": draw(st.integers(0, 10 ** 6)),
+            "e": draw(st.sampled_from([1e-8, 1e-5, 1e-3, 0.1])),
+            "zero": draw(st.sampled_from([False] * 15 + [True])), "zj": draw(st.integers(0, 10 ** 6))}
+
+
+def extreme_pair_positions(case, d, k):
+    form, v = case["form"], case["variant"]
+    a, b = case["jf"][0] % d, case["jf"][1] % d
+    pos = {"left_pair": [0, 1], "right_pair": [d - 2, d - 1], "both_pairs": [0, 1, d - 2, d - 1], "ends": [0, d - 1],
+           "pivot_pair": [[k - 1, k], [k, k + 1], [k - 1, k + 1]][v], "run3": [a, a + 1, a + 2], "scattered": [a, b],
+           "run8": list(range(a, a + 8)) if d > 8 else list(range(d))}[form]
+    pos = sorted({min(d - 1, max(0, j)) for j in pos})
+    if len(pos) < 2:                                                # d = 2 / a pivot at the end: the pair next to it
+        pos = sorted({pos[0], pos[0] + 1 if pos[0] + 1 < d else pos[0] - 1})
+    return pos
+
+
+def extreme_pair_tensors(case, k):
+    """Y0 (every core ordinary), Y (cores `pos` multiplied by 2^shs[pos]), the per-core shifts."""
+    spec = case["Y"]
+    d = spec["d"]
+    pos = extreme_pair_positions(case, d, k)
+    shs = np.zeros(d, dtype=np.int64)
+    for i, j in enumerate(pos):
+        m = case["mag"][0] if case["equal_mag"] else case["mag"][i % 4]
+        sg = {"pos": 1, "neg": -1, "alt": (1 if i % 2 == 0 else -1) * (-1 if case["flip"] else 1), "drawn": -1 if case["neg"][i % 4] else 1}[case["signs"]]
+        shs[j] = sg * m
+    sc = dict(case["sc"])
+    room = 29000 - int(np.sum(np.abs(shs)))                         # the total stays within 2^+-30000
+    if case["moderate"]:
+        sc["pat"], sc["total"] = "uniform", sc["total"] % 121 - 60
+    sc["total"] = max(-room, min(room, int(sc["total"])))
+    s0 = np.array(scales(d, sc, LO, HI), dtype=np.int64)
+    for i, j in enumerate(pos):
+        s0[j] = case["t0"][i % 4]
+    Y0 = build(spec, s0)
+    if case["zero"]:
+        Y0[case["zj"] % d][...] = 0.0
+    Y = [np.ldexp(G, int(s)) if s != 0 else G for G, s in zip(Y0, shs)]
+    return Y0, Y, shs, pos
+
+
+def prop_extreme_pairs(case, ctx):
+    spec, op = case["Y"], case["op"]
+    d = spec["d"]
+    kmain = d - 1 if op == "truncate" else {"first": 0, "last": d - 1, "mid": d // 2, "frac": case["kf"] % d, "at_extreme": None}[case["k"]]
+    if kmain is None:
+        pos = extreme_pair_positions(case, d, d // 2)
+        kmain = pos[case["kf"] % len(pos)]
+    Y0, Y, shs, pos = extreme_pair_tensors(case, kmain)
+    S = int(np.sum(shs))
+    state = scaling_state(Y, Y0, shs)
+    ext = set(pos)
+    adjacent = [(a, a + 1) for a in pos if a + 1 in ext]
+    ctx.label("op:" + op, "form:" + case["form"], "signs:" + case["signs"], f"cores={min(len(pos), 5)}" + ("+" if len(pos) > 5 else ""),
+              "ends:" + spec["ends"], f"d={d}" if d in (2, 3, 4, 5, 50, 300, 1000, 3000) else "d=other",
+              "others:O(1)" if case["moderate"] else "others:any_total", "scaling:" + state)
+    if any(abs(int(shs[a]) + int(shs[b])) > 1023 for a, b in adjacent):
+        ctx.label("adjacent_pair_product_not_representable")
+    if case["zero"]:
+        ctx.label("zero_core")
+    ctx.nontrivial(True)                                            # the squares of the entries of the scaled cores are not representable
+    snap = snapshot(Y0)
+    if op == "truncate":
+        if (0, 1) in adjacent:
+            ctx.label("sweep_starts_at_an_extreme_pair")
+        e = case["e"]
+        truncate_shift(ctx, f"truncate(e={e}, use_stab=True), cores {pos[:8]} times 2^{[int(shs[j]) for j in pos[:8]]}", Y, Y0, e, S, state)
+    else:
+        pivots = list(range(d)) if d <= 4 else [kmain]
+        ctx.inner(len(pivots))
+        for k in pivots:
+            if ((0, 1) in adjacent and k > 0) or ((d - 2, d - 1) in adjacent and k < d - 1):
+                ctx.label("sweep_starts_at_an_extreme_pair")
+            ctx.label("pivot:" + ("first" if k == 0 else "last" if k == d - 1 else "interior"), "pivot_extreme" if k in ext else "pivot_ordinary")
+            Z, p, gy = run_orth(ctx, Y, k)
+            if Z is None:
+                continue
+            orth_shift(ctx, f"orthogonalize(k={k}, use_stab=True), cores {pos[:8]} times 2^{[int(shs[j]) for j in pos[:8]]}", Y0, k, S, state, Z, p)
+    unchanged(ctx, Y0, snap, "extreme pairs: ordinary tensor")
 
 
 # ------------------------------------------------------------------------------------------- extreme cores in the Gram routines
@@ -1495,5 +1651,6 @@ SUBCHECKS = [
     Sub("shared", prop_shared, strategy=shared_cases, quick=40, thorough=400),
     Sub("tiny", prop_tiny, strategy=tiny_cases, quick=40, thorough=400),
     Sub("one_core", prop_one_core, strategy=one_core_cases, quick=16, thorough=300),
+    Sub("extreme_pairs", prop_extreme_pairs, strategy=extreme_pair_cases, quick=24, thorough=400),
     Sub("extreme_cores", prop_extreme, strategy=extreme_cases, quick=60, thorough=600),
 ]
